@@ -47,12 +47,22 @@ class WindowGhost:
         t = self.traj
         return (t.cell(i * self.step), t.cell(i * self.step + self.tau))
 
+    def unfold_facts(self, i):
+        i = zint(i)
+        return [self.rho(0) == 0,
+                z3.Implies(i >= 0, z3.And(self.rho(i + 1) == self.rho(i) + z3.If(self.valid(i), 1, 0), self.rho(i) >= 0, self.rho(i) <= i)),
+                # src is the inverse of rho on valid windows (ghost definition; consistent because rho is strictly
+                # increasing across valid windows)
+                z3.Implies(z3.And(i >= 0, self.valid(i)), self.src(self.rho(i)) == i)]
+
     def unfold(self, ctx, i):
-        ctx.assume(self.rho(0) == 0)
-        ctx.assume(z3.Implies(i >= 0, z3.And(self.rho(i + 1) == self.rho(i) + z3.If(self.valid(i), 1, 0), self.rho(i) >= 0, self.rho(i) <= i)))
-        # src is the inverse of rho on valid windows (ghost definition; consistent because rho is strictly
-        # increasing across valid windows)
-        ctx.assume(z3.Implies(z3.And(i >= 0, self.valid(i)), self.src(self.rho(i)) == i))
+        for f in self.unfold_facts(i):
+            ctx.assume(f)
+        defs = ctx.__dict__.setdefault("ghost_defs", [])
+        if not any(getattr(d, "owner", None) is self for d in defs):
+            g = lambda k: self.unfold_facts(k)
+            g.owner = self
+            defs.append(g)
 
 
 class Window(Contract):
@@ -267,7 +277,7 @@ class OneTau(Contract):
         LY = zint(Y.length)
         V.oblige("post:window-mode", z3.And(g.tau == tau, g.step == (tau if variant == "noncorrelated" else 1)))
         if not isinstance(T, Sparse) or not hasattr(T, "scaled_rows_of"):
-            V.oblige("post:result-is-row-scaled-count-matrix", False)
+            raise Unsupported("the result is not recognisably a row-scaled count matrix: the contract does not fit this code")
             return
         Mcsr = T.scaled_rows_of[1]
         a, b = z3.Int("a12"), z3.Int("b12")
